@@ -30,6 +30,8 @@ type c01Case struct {
 	// Edits: builder calls that change what was added earlier (the lists of files, single parts) made
 	// after the program ran and before the first render; the model follows every edit.
 	Edits []c01Edit `json:"edits,omitempty"`
+	// Twice: the message is rendered a second time and the second rendering is judged as well.
+	Twice bool `json:"twice,omitempty"`
 }
 
 // c01Edit is one call of UnsetAllAttachments / UnsetAllEmbeds / UnsetAllParts / SetAttachments /
@@ -151,7 +153,8 @@ func applyEdits(b *gen.Built, edits []c01Edit) bool {
 				b.Leaves = append(append([]gen.Leaf{}, b.Leaves[:lo+e.Idx]...), b.Leaves[lo+e.Idx+1:]...)
 			case "part-ctype":
 				parts[pi].SetContentType(mail.ContentType(e.Arg))
-				l.MediaType = e.Arg
+				// a media type may come with parameters of its own: the leaf's type is what precedes them
+				l.MediaType = strings.TrimSpace(strings.SplitN(e.Arg, ";", 2)[0])
 			case "part-charset":
 				parts[pi].SetCharset(mail.Charset(e.Arg))
 				l.Charset = e.Arg
@@ -258,6 +261,18 @@ func c01Run(c c01Case) []*core.Violation {
 			rec.Class("re-encoded-between-two-renders")
 		}
 	}
+	if c.Twice && c.Reencode == 0 && len(vs) == 0 {
+		// the same message rendered once more (a retry, WriteToFile followed by Send): judged like the first
+		var buf2 bytes.Buffer
+		if _, err := b.Msg.WriteTo(&buf2); err != nil {
+			return []*core.Violation{core.V("render-error", "second render failed on a healthy buffer: %v", err)}
+		}
+		for _, v := range oracle.CompareLeaves(mimeread.Parse(buf2.Bytes()), b.Leaves, np, ne, na, oracle.LeafOpts{NoDesc: true}) {
+			v.Msg = "second render of the same message: " + v.Msg
+			vs = append(vs, v)
+		}
+		rec.Class("rendered-twice")
+	}
 	// evidence
 	shape := fmt.Sprintf("p%d/e%d/a%d", np, ne, na)
 	rec.Class("shape:" + gen.ExpectedShape(np, ne, na))
@@ -294,6 +309,7 @@ func c01Gen(t *rapid.T) c01Case {
 	if rapid.IntRange(0, 5).Draw(t, "priorfail") == 0 {
 		c.PriorFail = rapid.IntRange(1, 4000).Draw(t, "priorfailat")
 	}
+	c.Twice = rapid.IntRange(0, 3).Draw(t, "twice") == 0
 	if c.Reencode == 0 && rapid.IntRange(0, 3).Draw(t, "edited") == 0 {
 		c.Edits = c01GenEdits(t, &c.Spec)
 	}
@@ -349,7 +365,7 @@ func c01GenEdits(t *rapid.T, spec *gen.MsgSpec) []c01Edit {
 			np--
 		case "part-ctype":
 			e.Idx = rapid.IntRange(0, np-1).Draw(t, "editpart")
-			e.Arg = rapid.SampledFrom([]string{"text/plain", "text/html", "text/x-verif", "application/json"}).Draw(t, "editctype")
+			e.Arg = rapid.SampledFrom([]string{"text/plain", "text/html", "text/x-verif", "application/json", "text/calendar; method=REQUEST", "text/plain; format=flowed"}).Draw(t, "editctype")
 		case "part-charset":
 			e.Idx = rapid.IntRange(0, np-1).Draw(t, "editpart")
 			e.Arg = rapid.SampledFrom([]string{"UTF-8", "ISO-8859-1", "US-ASCII", "ISO-8859-15"}).Draw(t, "editcharset")
